@@ -982,11 +982,19 @@ func parseNetworkResource(item daemon.ResourceItem) eni.NetworkResource {
 		if item.IPv6 != "" {
 			v6, _ = netip.ParseAddr(item.IPv6)
 		}
+		mac := item.ENIMAC
+		if item.Type == daemon.ResourceTypeENIIP && item.ENIID == "" && item.IPv4 == "" && item.IPv6 == "" {
+			// legacy record: the id is "<mac>.<ipv4>" and nothing else is set (see eni.Local.load)
+			if i := strings.Index(item.ID, "."); i > 0 {
+				mac = item.ID[:i]
+				v4, _ = netip.ParseAddr(item.ID[i+1:])
+			}
+		}
 
 		return &eni.LocalIPResource{
 			ENI: daemon.ENI{
 				ID:  item.ENIID,
-				MAC: item.ENIMAC,
+				MAC: mac,
 			},
 			IP: types.IPSet2{
 				IPv4: v4,
